@@ -59,6 +59,8 @@ def targets(T: str) -> dict[str, tuple[dict[str, str], str, str, str]]:  # noqa:
     t["same_module_nested"] = ({}, f"class O{T}:\n    class I{T}:\n        def m{T}(self) -> int:\n            return 1\n", f"O{T}.I{T}", f"a{T}.py")
     t["sibling_abs"] = ({f"b{T}.py": c}, f"from {PKG}.u{T}.b{T} import {B}\n", B, f"a{T}.py")
     t["sibling_rel"] = ({f"b{T}.py": c}, f"from .b{T} import {B}\n", B, f"a{T}.py")
+    # the user module's name (a<T>) is a proper prefix of the target module's name (a<T>x)
+    t["sibling_name_prefix"] = ({f"a{T}x.py": c}, f"from .a{T}x import {B}\n", B, f"a{T}.py")
     t["sibling_module_attr"] = ({f"b{T}.py": c}, f"from . import b{T}\n", f"b{T}.{B}", f"a{T}.py")
     t["sibling_pkg"] = ({f"sp{T}/__init__.py": "", f"sp{T}/b{T}.py": c}, f"from {PKG}.u{T}.sp{T}.b{T} import {B}\n", B, f"a{T}.py")
     t["parent_pkg"] = ({f"b{T}.py": c, f"ap{T}/__init__.py": ""}, f"from {PKG}.u{T}.b{T} import {B}\n", B, f"ap{T}/a{T}.py")
